@@ -190,6 +190,14 @@ func (w *World) execCreateBinding(stepIdx int, st *Step) {
 		} else if res3.UniqueSuffix == wantSuffix {
 			w.violate("C03/suffix-data-modification-same-did", label, "create with modified suffix data (%s) still denotes %s", label, res3.ID)
 		}
+		// whatever was accepted is a create request in its own right: its delta must hash to the delta hash it records
+		if mm, isObj := mod.(map[string]any); isObj {
+			msd, _ := mm["suffixData"].(map[string]any)
+			mdh, _ := msd["deltaHash"].(string)
+			if code, _, derr := ref.DecodeMultihash(mdh); derr != nil || ref.ModelHash(code, mm["delta"]) != mdh {
+				w.violate("C03/delta-hash", label, "accepted create (%s) whose delta does not hash to the delta hash it records (%q)", label, mdh)
+			}
+		}
 	}
 	n := 0
 	for _, l := range leaves {
@@ -206,6 +214,22 @@ func (w *World) execCreateBinding(stepIdx int, st *Step) {
 			continue
 		}
 		check("removed:"+pathClass(l.path), editPath(req, l.path, nil, true), l.path[0] == "suffixData")
+	}
+	// hash-valued members re-encoded as well-formed multihashes of the same code with a shortened / lengthened digest
+	for _, l := range leaves {
+		old, _ := getPath(req, l.path).(string)
+		code, digest, derr := ref.DecodeMultihash(old)
+		if derr != nil || len(digest) < 4 {
+			continue
+		}
+		for _, keep := range []int{0, 1, len(digest) / 2, len(digest) - 1, len(digest) + 1} {
+			n++
+			if st.Index > 0 && st.Index != n {
+				continue
+			}
+			d := append(append([]byte{}, digest...), 0)[:keep]
+			check(fmt.Sprintf("digest-length-%d:%s", keep-len(digest), pathClass(l.path)), editPath(req, l.path, ref.B64(ref.MultihashBytes(code, d)), false), l.path[0] == "suffixData")
+		}
 	}
 	// members ADDED to objects inside the patches (generic JSON there: every member is hashed); names a lenient
 	// implementation might strip or special-case (private JWK parts, members of neighbouring models)
@@ -519,6 +543,15 @@ func (w *World) execCAS(stepIdx int, st *Step) {
 		// a self-consistent multihash whose digest is a PREFIX of the real one (length field adjusted)
 		tryHash("digest_prefix_with_matching_length", ref.B64(ref.MultihashBytes(alg, raw[2:2+nb])))
 	}
+	// the same code / length / digest with redundant continuation bytes in a varint of the header (not minimally encoded)
+	for _, padded := range [][]byte{
+		append([]byte{raw[0] | 0x80, 0x00}, raw[1:]...),
+		append([]byte{raw[0], raw[1] | 0x80, 0x00}, raw[2:]...),
+		append([]byte{raw[0] | 0x80, 0x80, 0x00}, raw[1:]...),
+		append([]byte{raw[0] | 0x80, 0x00, raw[1] | 0x80, 0x00}, raw[2:]...),
+	} {
+		tryHash("header_varint_not_minimal", ref.B64(padded))
+	}
 	tryHash("digest_extended_with_matching_length", ref.B64(ref.MultihashBytes(alg, append(append([]byte{}, raw[2:]...), 0, 0))))
 	tryHash("identity_code_with_value", ref.B64(ref.MultihashBytes(0, ref.JCS(v))))
 	tryHash("other_algorithm", ref.ModelHash(other, v))
@@ -627,6 +660,31 @@ func (w *World) execJWS(stepIdx int, st *Step) {
 		w.violate("C15/valid-rejected", key.Type.String(), "JWS by the matching %s key does not verify: %v", key.Type, verr)
 		return
 	}
+	// several signatures of one signer outstanding at the same time: two JWS objects built before either is serialised, and a raw
+	// signature kept across the next Sign call - what a signer returned stays what it was
+	{
+		p2 := append(append([]byte{}, payload...), '!')
+		j1, e1 := jwsutil.NewJWS(signer.Headers(), nil, payload, signer)
+		j2, e2 := jwsutil.NewJWS(signer.Headers(), nil, p2, signer)
+		if e1 != nil || e2 != nil {
+			w.violate("C15/sign", key.Type.String(), "NewJWS: %v %v", e1, e2)
+			return
+		}
+		for i, j := range []*jwsutil.JSONWebSignature{j1, j2} {
+			c, cerr := j.SerializeCompact(false)
+			want := [][]byte{payload, p2}[i]
+			if got, verr := jwsutil.VerifyJWS(c, jwk); cerr != nil || verr != nil || got == nil || !bytes.Equal(got.Payload, want) {
+				w.violate("C15/valid-rejected", key.Type.String()+":outstanding", "JWS %d of two built by one %s signer before either was serialised does not verify under the matching key: %v %v", i+1, key.Type, cerr, verr)
+			}
+		}
+		raw1, se1 := signer.Sign([]byte("message one"))
+		keep := append([]byte{}, raw1...)
+		_, se2 := signer.Sign([]byte("message two"))
+		if se1 != nil || se2 != nil || !bytes.Equal(raw1, keep) {
+			w.violate("C15/signature-changed-later", key.Type.String(), "the signature returned by Sign was changed by the next Sign call of the same signer (%v %v)", se1, se2)
+		}
+		w.T.Count("outstanding_signatures_checked", 1)
+	}
 	hdrContent, _ := ref.Parse(h)
 	n := 0
 	mustFail := func(class, label, s string, k *jws.JWK) {
@@ -700,6 +758,28 @@ func (w *World) execJWS(stepIdx int, st *Step) {
 		n2 := key.Type.CoordSize()
 		stripped := append(append([]byte{}, sig[:n2]...), sig[n2+1:]...)
 		mustFail("wrong_length", "leading byte of s stripped", joinJWS(h, p, stripped), jwk)
+	}
+	if key.Type != Ed25519 {
+		// a signature of this key whose r AND s both start with a zero byte (p = 2^-16 per honest signature, so it is constructed:
+		// a nonce whose r has one, then a payload whose s has one): removing leading zero bytes must never give an accepted form
+		unencoded := false
+		if hm, isObj := hdrContent.(map[string]any); isObj {
+			if b, isBool := hm["b64"].(bool); isBool && !b {
+				unencoded = true // RFC 7797: the payload enters the signing input as it is
+			}
+		}
+		cp, csig := craftDoubleZeroSignature(key, h, payload, unencoded)
+		n2 := key.Type.CoordSize()
+		if okJWS, verr := jwsutil.VerifyJWS(joinJWS(h, cp, csig), jwk); verr != nil || okJWS == nil || !bytes.Equal(okJWS.Payload, cp) {
+			w.violate("C15/valid-rejected", key.Type.String(), "a valid %s signature whose halves both start with a zero byte does not verify: %v", key.Type, verr)
+		} else {
+			w.T.Probe("double_leading_zero_sig_" + key.Type.String())
+			r0, s0 := csig[:n2], csig[n2:]
+			mustFail("wrong_length", "both halves without their leading zero byte", joinJWS(h, cp, append(append([]byte{}, r0[1:]...), s0[1:]...)), jwk)
+			mustFail("wrong_length", "r without its leading zero byte", joinJWS(h, cp, append(append([]byte{}, r0[1:]...), s0...)), jwk)
+			mustFail("wrong_length", "s without its leading zero byte", joinJWS(h, cp, append(append([]byte{}, r0...), s0[1:]...)), jwk)
+			mustFail("wrong_length", "both halves padded with a zero byte", joinJWS(h, cp, append(append(append([]byte{0}, r0...), 0), s0...)), jwk)
+		}
 	}
 	mustFail("unsupported_kty", "RSA key", compact, &jws.JWK{Kty: "RSA", N: "AQAB", E: "AQAB"})
 	mustFail("unsupported_kty", "oct key", compact, &jws.JWK{Kty: "oct", Crv: "x", X: "AAAA"})
@@ -860,6 +940,14 @@ func (w *World) execJWK(stepIdx int, st *Step) {
 		m := ref.Clone(want).(map[string]any)
 		m["x"], m["y"] = m["y"], m["x"]
 		mustReject("coordinates_swapped", m)
+		// the same point bytes with the boundary between x and y moved: each coordinate has the wrong width, their concatenation is intact
+		xy := append(append([]byte{}, key.X...), key.Y...)
+		n := key.Type.CoordSize()
+		for _, cut := range []int{n + 1, n - 1, n + 2, n / 2, n + n/2, 2 * n, 0} {
+			m := ref.Clone(want).(map[string]any)
+			m["x"], m["y"] = ref.B64(xy[:cut]), ref.B64(xy[cut:])
+			mustReject("coordinate_boundary_moved", m)
+		}
 	}
 }
 
@@ -890,4 +978,45 @@ var jwsHeaderVariants = []map[string]any{
 	{"b64": false, "crit": []any{"b64"}},
 	{"b64": true, "crit": []string{"b64"}},
 	{"cty": "application/json", "x5c": []string{"AAAA"}, "jku": "https://example.com/keys"},
+}
+
+// craftDoubleZeroSignature returns a payload (base plus a counter) and a valid fixed-width ECDSA signature of
+// b64(header).b64(payload) under key whose r and s both start with a zero byte. Plain textbook ECDSA with a chosen nonce
+// (harness-side: the library only ever sees the result).
+func craftDoubleZeroSignature(key *Key, header, base []byte, unencoded bool) ([]byte, []byte) {
+	c := key.Type.curve()
+	n := c.Params().N
+	size := key.Type.CoordSize()
+	var k, r *big.Int
+	for i := int64(1); ; i++ {
+		k = new(big.Int).Add(new(big.Int).Rsh(n, 3), big.NewInt(i*7919))
+		x, _ := c.ScalarBaseMult(k.Bytes()) //nolint:staticcheck
+		r = new(big.Int).Mod(x, n)
+		if r.Sign() != 0 && r.FillBytes(make([]byte, size))[0] == 0 {
+			break
+		}
+	}
+	kinv := new(big.Int).ModInverse(k, n)
+	rd := new(big.Int).Mul(r, key.EC.D)
+	for ctr := 0; ; ctr++ {
+		payload := append(append([]byte{}, base...), []byte(fmt.Sprintf("#%d", ctr))...)
+		input := ref.B64(header) + "." + ref.B64(payload)
+		if unencoded {
+			input = ref.B64(header) + "." + string(payload)
+		}
+		hash := key.Type.hash([]byte(input))
+		z := new(big.Int).SetBytes(hash)
+		if excess := len(hash)*8 - n.BitLen(); excess > 0 {
+			z.Rsh(z, uint(excess))
+		}
+		s := new(big.Int).Add(z, rd)
+		s.Mul(s, kinv).Mod(s, n)
+		if s.Sign() == 0 {
+			continue
+		}
+		sb := s.FillBytes(make([]byte, size))
+		if sb[0] == 0 {
+			return payload, append(r.FillBytes(make([]byte, size)), sb...)
+		}
+	}
 }
